@@ -164,7 +164,7 @@ impl Cell {
 
 /// every cell the builder accepts
 pub fn cells(rng: &mut Rng) -> Vec<Cell> {
-    let mut port = |rng: &mut Rng| *rng.pick(&[1u16, 80, 443, 33434, 5000, 65535, 255, 256]);
+    let port = |rng: &mut Rng| *rng.pick(&[1u16, 80, 443, 33434, 5000, 65535, 255, 256]);
     let mut v = vec![Cell { proto: 'i', strat: 'c', pd: Pd::None }];
     for strat in ['c', 'p', 'd'] {
         v.push(Cell { proto: 'u', strat, pd: Pd::Src(port(rng)) });
